@@ -57,6 +57,12 @@ def run(chk):
     if chk.want("R04.14"):
         from ..inherit import inherit
         inherit(chk, "R04.14", "c14", ["R14.3"])
+    chk.rule("R04.15", "the operations the images are generated with are the operations the file states: the x,y,z string codec of the CIF / SHELX "
+                       "loading path keeps the sign and value of every term (= C11 R11.7; a decoder that drops the sign of -1/4 loads Fdd2 with "
+                       "operators of no group at all, and the unit-cell molecules are no symmetry images of the asymmetric molecule)", 6)
+    if chk.want("R04.15"):
+        from ..inherit import inherit
+        inherit(chk, "R04.15", "c11", ["R11.7"])
     chk.assume("the greedy choice of symmetry-unique molecules, Z' * |G| and all geometry (bonding distances) are not decided")
     chk.assume("scipy connected_components labels partition the nodes; breadth_first_order returns each node's predecessor")
 
